@@ -90,6 +90,18 @@ def r2(cx):
         for o in org:
             if o[0] == "agg" and isinstance(o[1], tuple) and str(o[1][2]).startswith("object_store::PutMode::"):
                 vs.add(o[1][2].rsplit("::", 1)[1])
+        # the mode field itself: only the explicit Create / Update aggregates may reach it (a whole-struct `PutOptions::default()`
+        # or any other call yields PutMode::Overwrite without a PutMode aggregate appearing)
+        if len(t["args"]) > 3 and t["args"][3]["k"] in ("copy", "move"):
+            mo = M.provenance(b, {"l": t["args"][3]["pl"]["l"], "p": [{"f": 0, "n": "mode"}]}, at=(pb, M.T))
+            foreign = sorted({o[1][1] for o in mo if o[0] == "call"})
+            if foreign:
+                vs.add("Overwrite" if any("default" in f.lower() for f in foreign) else "?")
+                if "Overwrite" not in {x.rsplit("::", 1)[1] for x in [str(o[1][2]) for o in org if o[0] == "agg" and isinstance(o[1], tuple)] if x.startswith("object_store::PutMode::")}:
+                    cx.violation(ck, "conditional-put-modes", "%s: the mode of the primary put_opts can come from %s (PutOptions' default mode is Overwrite): on that path the write is "
+                                 "unconditional and silently replaces a concurrent commit" % (b.sp(pb), foreign), [b.sp(pb)])
+                    first = pb
+                    continue
         if "Overwrite" not in vs:
             first = pb
             if vs != {"Create", "Update"}:
@@ -469,3 +481,16 @@ def r7(cx):
                          [x[1] for x in bad])
         else:
             cx.passed(k, "retry-body-uses-outside-read", [pb.sp(aggs[0][0], aggs[0][1])])
+
+
+@rule("C02", "R8", "chunk list and time index change together in every written version: the indexing rules of C07 for registration (the bucket loop runs unconditionally before the "
+      "save, over every bucket of the range) and for removal / compaction swap (path removed from the map and from every bucket before the save), evaluated for this property")
+def r8(cx):
+    import importlib
+    m = importlib.import_module("rules.C07")
+    ib = len(cx.instances)
+    ob0, di0 = cx.obligations, cx.discharged
+    for f in ("r1", "r5"):
+        getattr(m, f)(cx)
+    cx.obligations = ob0 + len(cx.instances[ib:])
+    cx.discharged = di0 + len([i for i in cx.instances[ib:] if i["verdict"] == "holds"])
